@@ -13,6 +13,9 @@ void *__real_malloc(size_t);
 void  __real_free(void *);
 void  __real_abort(void) __attribute__((noreturn));
 
+static void hb_fresh(uintptr_t a, size_t n);
+static void hb_reset(void);
+
 /* ---------------- arena ---------------- */
 #define ARENA_SZ 4096
 #define MAXBLK 64
@@ -77,6 +80,7 @@ void *__wrap_malloc(size_t sz)
     if (nblocks >= MAXBLK || arena_used + sz + 16 > ARENA_SZ) { sx_fail("harness arena exhausted"); return NULL; }
     p = arena + arena_used;
     memset(p, 0xBE, sz);                             /* fresh memory has deterministic content */
+    hb_fresh((uintptr_t)p, sz);
     blocks[nblocks].addr = (uintptr_t)p; blocks[nblocks].size = sz; blocks[nblocks].freed = 0; blocks[nblocks].ord = nblocks;
     nblocks++;
     arena_used += sz + 16;                           /* 16 bytes of red zone after every block */
@@ -233,6 +237,7 @@ static void exec_begin(void)
     arena_used = 0; nblocks = 0; memset(arena, 0, sizeof arena); memset(blocks, 0, sizeof blocks);
     failed = 0; fail_msg[0] = 0; mem_version = 0; cur = -1;
     memset(T, 0, sizeof T);
+    hb_reset();
     active = 1;
     SC->setup();
     for (t = 0; t < SC->nthreads; t++) {
@@ -273,6 +278,67 @@ static void race_check(void)
         }
     }
 }
+/* ---- happens-before race check that honours the actual memory orders (C11 release/acquire, release sequences through RMWs).
+ * With every atomic operation seq_cst (today's memory.c) it can only find what the co-enabledness check finds in some interleaving;
+ * it exists for changes that weaken an order: then two conflicting accesses can be unordered by happens-before although no SC
+ * interleaving makes them adjacent.  Vector clocks and shadow words are part of the snapshots but not of the state key, so along
+ * pruned executions the check is not repeated: it never raises a false alarm, and it is not claimed to be complete. ---- */
+#define NWORDS (ARENA_SZ / 8)
+#define MAXALOC 32
+static unsigned VC[SX_MAXT][SX_MAXT];
+static struct { uintptr_t addr; unsigned rel[SX_MAXT]; } ALOC[MAXALOC];
+static int naloc;
+static struct { int wt; unsigned wc; unsigned rc[SX_MAXT]; } SH[NWORDS];
+static void hb_reset(void) { int i; memset(VC, 0, sizeof VC); memset(ALOC, 0, sizeof ALOC); naloc = 0; memset(SH, 0, sizeof SH); for (i = 0; i < NWORDS; i++) SH[i].wt = -1; }
+static void hb_fresh(uintptr_t a, size_t n) { size_t w; for (w = (a - (uintptr_t)arena) / 8; w < NWORDS && w * 8 + (uintptr_t)arena < a + n; w++) { memset(&SH[w], 0, sizeof SH[w]); SH[w].wt = -1; } }
+static unsigned *hb_loc(uintptr_t a)
+{
+    int i;
+    a &= ~(uintptr_t)7;
+    for (i = 0; i < naloc; i++) if (ALOC[i].addr == a) return ALOC[i].rel;
+    if (naloc >= MAXALOC) return NULL;
+    ALOC[naloc].addr = a; memset(ALOC[naloc].rel, 0, sizeof ALOC[naloc].rel);
+    return ALOC[naloc++].rel;
+}
+static void hb_conflict(int c, const char *mine, int other, const char *theirs, uintptr_t a)
+{
+    const sx_block *b = sx_block_of((void *)a);
+    sx_fail("data race on the library's bookkeeping (happens-before): thread %d's %s at block#%d+%lu is not ordered after thread %d's earlier %s of the same word -- the memory orders used do not synchronise them",
+            c, mine, b ? b->ord : -1, b ? (unsigned long)(a - b->addr) : 0ul, other, theirs);
+}
+static void hb_access(int c, uintptr_t a, size_t n, int is_wr, int atomic)
+{
+    size_t w0 = (a - (uintptr_t)arena) / 8, w1 = (a + (n ? n : 1) - 1 - (uintptr_t)arena) / 8, w; int u;
+    for (w = w0; w <= w1 && w < NWORDS; w++) {
+        /* against the last plain write */
+        if (SH[w].wt >= 0 && SH[w].wt != c && SH[w].wc > VC[c][SH[w].wt]) { hb_conflict(c, is_wr ? (atomic ? "atomic write" : "write") : (atomic ? "atomic read" : "read"), SH[w].wt, "plain write", (uintptr_t)arena + w * 8); return; }
+        if (is_wr) for (u = 0; u < SX_MAXT; u++) if (u != c && SH[w].rc[u] > VC[c][u]) { hb_conflict(c, atomic ? "atomic write" : "write", u, "plain read", (uintptr_t)arena + w * 8); return; }
+        if (!atomic) { if (is_wr) { SH[w].wt = c; SH[w].wc = VC[c][c]; memset(SH[w].rc, 0, sizeof SH[w].rc); } else SH[w].rc[c] = VC[c][c]; }
+    }
+}
+static void hb_step(int c)
+{
+    const sx_op *o = &T[c].pend; unsigned *L; int u, mo = o->morder;
+    VC[c][c]++;
+    switch (o->kind) {
+    case SX_OP_READ: hb_access(c, o->addr, (size_t)o->size, 0, 0); break;
+    case SX_OP_WRITE: hb_access(c, o->addr, (size_t)o->size, 1, 0); break;
+    case SX_OP_FREE: { const sx_block *b = sx_block_of((void *)o->addr); if (b && !b->freed) hb_access(c, b->addr, b->size, 1, 0); break; }   /* destroying a block conflicts with every earlier access to it */
+    case SX_OP_ATOMIC_LOAD: case SX_OP_ATOMIC_STORE: case SX_OP_ATOMIC_RMW:
+        hb_access(c, o->addr, (size_t)o->size, o->kind != SX_OP_ATOMIC_LOAD, 1);
+        L = hb_loc(o->addr); if (!L) break;
+        if (o->kind != SX_OP_ATOMIC_STORE && (mo == __ATOMIC_CONSUME || mo == __ATOMIC_ACQUIRE || mo == __ATOMIC_ACQ_REL || mo == __ATOMIC_SEQ_CST))
+            for (u = 0; u < SX_MAXT; u++) if (L[u] > VC[c][u]) VC[c][u] = L[u];
+        if (o->kind != SX_OP_ATOMIC_LOAD) {
+            int rel = mo == __ATOMIC_RELEASE || mo == __ATOMIC_ACQ_REL || mo == __ATOMIC_SEQ_CST;
+            if (o->kind == SX_OP_ATOMIC_STORE) { for (u = 0; u < SX_MAXT; u++) L[u] = rel ? VC[c][u] : 0; }      /* a plain store starts a new release sequence (or none) */
+            else if (rel) for (u = 0; u < SX_MAXT; u++) if (VC[c][u] > L[u]) L[u] = VC[c][u];                   /* an RMW continues the sequence it read from */
+        }
+        break;
+    default: break;
+    }
+}
+
 /* run thread c for one step (its parked operation plus everything up to its next scheduling point) */
 static void step(int c)
 {
@@ -282,6 +348,8 @@ static void step(int c)
         if (b && b->freed) { char d[160]; describe(c, d, sizeof d); sx_fail("access into a freed block: %s", d); return; }
         if (!b) { char d[160]; describe(c, d, sizeof d); sx_fail("access into arena memory outside any block (red zone): %s", d); return; }
     }
+    hb_step(c);
+    if (failed) return;
     {
         /* frames pushed during this step start from zeroed memory, so dead slots inside live frames are a function of the state
          * (a thread that has not run yet gets its whole unused stack zeroed: an earlier branch of the search may have run it) */
@@ -372,6 +440,7 @@ typedef struct {
     unsigned char T_[sizeof T];
     ucontext_t ctx[SX_MAXT];
     uintptr_t sp[SX_MAXT]; size_t slen[SX_MAXT]; unsigned char stack[SX_MAXT][SNAP_STACK];
+    unsigned char vc[sizeof VC], aloc[sizeof ALOC], sh[sizeof SH]; int naloc;
 } snap_t;
 static snap_t *snaps; static int snaps_cap;
 static sx_stats *ST; static sx_violation *VIO; static int path[SX_MAXSTEPS]; static double dfs_deadline, dfs_t0; static int dfs_stop;
@@ -382,6 +451,7 @@ static int save_state(snap_t *sn)
     sn->arena_used = arena_used; sn->nblocks = nblocks; sn->mem_version = mem_version; sn->arena_hash_prev = arena_hash_prev;
     memcpy(sn->arena, arena, arena_used); memcpy(sn->blocks, blocks, sizeof blocks[0] * (size_t)nblocks);
     memcpy(sn->world, SC->world, SC->world_size); memcpy(sn->T_, T, sizeof T);
+    memcpy(sn->vc, VC, sizeof VC); memcpy(sn->aloc, ALOC, sizeof ALOC); memcpy(sn->sh, SH, sizeof SH); sn->naloc = naloc;
     for (t = 0; t < SC->nthreads; t++) {
         sn->slen[t] = 0;
         if (T[t].started && !T[t].finished) {
@@ -400,6 +470,7 @@ static void restore_state(const snap_t *sn)
     memset(arena, 0, sizeof arena); memcpy(arena, sn->arena, arena_used);
     memset(blocks, 0, sizeof blocks); memcpy(blocks, sn->blocks, sizeof blocks[0] * (size_t)nblocks);
     memcpy(SC->world, sn->world, SC->world_size); memcpy(T, sn->T_, sizeof T);
+    memcpy(VC, sn->vc, sizeof VC); memcpy(ALOC, sn->aloc, sizeof ALOC); memcpy(SH, sn->sh, sizeof SH); naloc = sn->naloc;
     for (t = 0; t < SC->nthreads; t++) {
         memcpy(&tctx[t], &sn->ctx[t], sizeof tctx[t]);
         if (sn->slen[t]) memcpy((void *)sn->sp[t], sn->stack[t], sn->slen[t]);
